@@ -78,12 +78,38 @@ Definition ccfg (k : qkey) (qs : Z) : cfg :=
 Record prz := { hname : bytes; groups : list (bytes * Z) }.
 
 (* per-call parameters read from StrategyBasedQueueConfig: TTLSeconds (float32,
-   given in half seconds), QueueSize, ResponseStatusCode, Prioritization *)
-Record par := { p_ttl_h : Z; p_qsize : Z; p_status : Z; p_prz : option prz }.
+   given in EIGHTHS of a second), QueueSize, ResponseStatusCode, Prioritization *)
+Record par := { p_ttl_e : Z; p_qsize : Z; p_status : Z; p_prz : option prz }.
 
-(* time.Duration(TTLSeconds) * time.Second: the float is truncated towards
-   zero FIRST (1.5 s becomes 1 s) *)
-Definition ttl_ns (p : par) : Z := Z.quot (p_ttl_h p) 2 * second.
+(* The TTL handed to Enqueue.
+
+   TtlExact (the code since the repair "a fractional ttl_seconds is no longer
+   truncated"):
+       time.Duration(float64(remedyConfig.TTLSeconds) * float64(time.Second))
+   TTLSeconds is a float32 holding n/8 for an integer n = p_ttl_e (exact for
+   |n| < 2^24: n * 2^-3 has a 24-bit significand); float32 -> float64 is exact;
+   float64(time.Second) = 1e9 exactly; the product n/8 * 1e9 = n * 125 000 000
+   is an integer below 2^53 (for |n| < 2^26), hence computed exactly by the
+   float64 multiplication; the conversion of an integral float64 to the int64
+   Duration is exact.  So the Duration is n * 125 000 000 ns — the configured
+   TTL itself.  The harness generates only such TTLs (multiples of 1/8 s, n <= 64).
+
+   TtlTruncated (the code before the repair):
+       time.Duration(remedyConfig.TTLSeconds) * time.Second
+   the float is converted to an integer number of SECONDS first (truncation
+   towards zero: 1.5 s becomes 1 s). *)
+Inductive ttl_variant := TtlExact | TtlTruncated.
+
+Definition eighth : Z := 125000000.
+
+(* the configured time-to-live in ns *)
+Definition cfg_ttl_ns (p : par) : Z := p_ttl_e p * eighth.
+
+Definition ttl_ns (tv : ttl_variant) (p : par) : Z :=
+  match tv with
+  | TtlExact => p_ttl_e p * eighth
+  | TtlTruncated => Z.quot (p_ttl_e p) 8 * second
+  end.
 
 (* extractPriority: no prioritization -> 0; a missing header reads as "" and an
    unknown value as the zero Prioritization, both -> priority 0 (unless a group
@@ -176,6 +202,10 @@ Definition bind (h : nat) (q : preq) : preq :=
 Definition set_status (s : Z) (q : preq) : preq :=
   {| q_rid := q_rid q; q_inst := q_inst q; q_status := Some s |}.
 
+Section Steps.
+(* which TTL conversion the code performs (code_ttl below is what is checked) *)
+Variable tv : ttl_variant.
+
 (* one atomic step of the requests / goroutines of one key; None = not enabled *)
 Definition kstep (v : variant) (k : qkey) (ks : kst) (a : kaction) : option kst :=
   match a with
@@ -219,7 +249,7 @@ Definition kstep (v : variant) (k : qkey) (ks : kst) (a : kaction) : option kst 
               match nth_error (insts ks) h with
               | Some s =>
                   match step (ccfg k (p_qsize p)) s
-                             (EnqLocked rid (extract_priority hdrs (p_prz p)) t (ttl_ns p) now) with
+                             (EnqLocked rid (extract_priority hdrs (p_prz p)) t (ttl_ns tv p) now) with
                   | Some s' =>
                       Some {| cur := cur ks; insts := set_nth h s' (insts ks);
                               preqs := pupd rid (set_status (p_status p)) (preqs ks) |}
@@ -394,6 +424,8 @@ Fixpoint prun_obs (v : variant) (s : pst) (acts : list paction) : list Z * pst :
       end
   end.
 
+End Steps.
+
 Definition pres := (option qkey * Z * option (verdict * Z))%type.
 
 Definition eq_pres (a b : option (verdict * Z)) : bool :=
@@ -410,8 +442,9 @@ Fixpoint eq_press (a b : list (option (verdict * Z))) : bool :=
   | _, _ => false
   end.
 
-(* the code under test is HEAD *)
+(* the code under test is HEAD: atomic lookup-or-create, exact TTL *)
 Definition code_variant : variant := Atomic.
+Definition code_ttl : ttl_variant := TtlExact.
 
 (* Compact case format: the remedy configurations used by the case are listed
    once ([tbl]: queue key and per-call parameters of each), actions and results
@@ -461,7 +494,7 @@ Definition run_plugin (k : case_plugin) : option (list Z * list (option (verdict
   match expand_all tbl cacts with
   | None => Some ([-2], [])
   | Some acts =>
-      let '(cs, sf) := prun_obs code_variant pinit acts in
+      let '(cs, sf) := prun_obs code_ttl code_variant pinit acts in
       let rs := map (fun r : cres =>
                        match fst (fst r) with
                        | None => pverdict sf None (snd (fst r))
